@@ -17,7 +17,8 @@ CONSTANTS
   Peers,     \* names of neighbour nodes; peer p is node dtn://p/ and reachable through one (mock) CLA
   Cat,       \* names of the bundles of this scenario family
   Attr,      \* [Cat -> [origin, dst, prev, life, clockless, tsg, req, admin, rptlocal, hop, hasunk, unkf, copies]]
-  Algo,      \* "epidemic" | "spray" | "binary_spray" | "prophet" | "dtlsr"
+  Algo,      \* "epidemic" | "spray" | "binary_spray" | "prophet" | "dtlsr" | "mule" (sensor-mule wrapper around epidemic)
+  Sensors,   \* mule: peers that are sensor nodes (only ever served by direct delivery)
   Budget,    \* spray-and-wait multiplicity L
   Enabled,   \* subset of action names this family explores
   MaxSteps,
@@ -85,7 +86,7 @@ SetPending(w, b) == [w EXCEPT !.st[b].pending = TRUE]
 (* ---- routing algorithms ---- *)
 Notify(w, b) ==
   LET a == Attr[b] IN
-  CASE Algo \in {"epidemic", "prophet", "dtlsr"} ->
+  CASE Algo \in {"epidemic", "prophet", "dtlsr", "mule"} ->
          IF a.prev # "none" THEN [w EXCEPT !.st[b].sent = @ \cup {a.prev}] ELSE w
     [] Algo = "spray" ->
          [w EXCEPT !.meta[b] = IF a.origin = "app"
@@ -96,11 +97,12 @@ Notify(w, b) ==
                                THEN [has |-> TRUE, copies |-> a.copies, sent |-> IF a.prev # "none" THEN {a.prev} ELSE {}]
                                ELSE [has |-> TRUE, copies |-> Budget, sent |-> IF a.prev # "none" THEN {a.prev} ELSE {}]]
 
-Allowed(w, b) == Algo # "epidemic" \/ IsLocal(Attr[b].dst) \/ (w.up \ w.st[b].sent) # {}
+Allowed(w, b) == Algo \notin {"epidemic", "mule"} \/ IsLocal(Attr[b].dst) \/ (w.up \ w.st[b].sent) # {}
 
 (* peers the algorithm may choose now, and how many of them it takes (the choice among equals is the code's) *)
 Candidates(w, b) ==
   CASE Algo = "epidemic" -> w.up \ w.st[b].sent
+    [] Algo = "mule" -> (w.up \ w.st[b].sent) \ Sensors     \* sensors are filtered out (and reported back as failed, i.e. forgotten)
     [] Algo = "spray" -> IF w.meta[b].has /\ w.meta[b].copies >= 2 THEN w.up \ w.meta[b].sent ELSE {}
     [] Algo = "binary_spray" -> IF w.meta[b].has /\ w.meta[b].copies >= 2 THEN w.up \ w.meta[b].sent ELSE {}
     [] Algo = "prophet" -> {p \in w.up \ w.st[b].sent :
@@ -118,13 +120,13 @@ DeleteAfter(b) == Algo = "dtlsr" /\ Attr[b].dst # "bcast"    \* unicast hand-ove
 (* memory update when the algorithm selected targets tg; announced = copies written into a binary-spray block *)
 Announced(w, b) == IF Algo = "binary_spray" THEN w.meta[b].copies \div 2 ELSE 0
 Selected(w, b, tg) ==
-  CASE Algo \in {"epidemic", "prophet"} -> [w EXCEPT !.st[b].sent = @ \cup tg]
+  CASE Algo \in {"epidemic", "prophet", "mule"} -> [w EXCEPT !.st[b].sent = @ \cup tg]
     [] Algo = "spray" -> [w EXCEPT !.meta[b].sent = @ \cup tg, !.meta[b].copies = @ - Cardinality(tg)]
     [] Algo = "binary_spray" -> IF tg = {} THEN w
                                 ELSE [w EXCEPT !.meta[b].sent = @ \cup tg, !.meta[b].copies = @ - Announced(w, b)]
     [] Algo = "dtlsr" -> IF Attr[b].dst = "bcast" THEN [w EXCEPT !.st[b].sent = @ \cup tg] ELSE w
 Failed(w, b, p, ann) ==
-  CASE Algo \in {"epidemic", "prophet", "dtlsr"} -> [w EXCEPT !.st[b].sent = @ \ {p}]
+  CASE Algo \in {"epidemic", "prophet", "dtlsr", "mule"} -> [w EXCEPT !.st[b].sent = @ \ {p}]
     [] Algo = "spray" -> IF w.meta[b].has THEN [w EXCEPT !.meta[b].sent = @ \ {p}, !.meta[b].copies = @ + 1] ELSE w
     [] Algo = "binary_spray" -> IF w.meta[b].has THEN [w EXCEPT !.meta[b].sent = @ \ {p}, !.meta[b].copies = @ + ann] ELSE w
 
